@@ -4,7 +4,7 @@ from __future__ import annotations
 
 import itertools
 
-from .minieval import Interp, Obj, Raises
+from .minieval import Interp, Obj, Raised, Raises
 from .model import Model
 
 TAB = 'pytableaux.proof.tableaux'
@@ -121,3 +121,81 @@ def fold_group_application(m: Model):
                 ok = ok and getattr(r.target, '_entry', None) is r
             out.append((ok, case, f'expected {want}; got {r!r}' + (f' rule={r.rule!r} target={r.target!r}' if isinstance(r, Obj) else '')))
     return out, [m.loc(TAB, f_get) + ' Tableau._get_group_application', m.loc(TAB, f_sel) + ' Tableau._select_optim_group_application']
+
+
+# ---- scoring of closure targets -------------------------------------------
+HELPERS = 'pytableaux.proof.helpers'
+RULES = 'pytableaux.proof.rules'
+
+
+def fold_closure_scoring(m: Model, lgs):
+    """For every closure rule class of every logic: the MRO-resolved score_candidate and group_score, folded on the
+    very target the rule's (MRO-resolved) _branch_target_hook builds, return a number -- under is_rank_optim /
+    is_group_optim the engine calls them on closure targets too, and a scorer written for expansion targets
+    (it reads target['adds']) raises there."""
+    from .model import FuncRef
+    out, consulted = [], set()
+    seen = set()
+    f_cs = m.func(HELPERS, 'AdzHelper.closure_score')
+    for lg in lgs:
+        for rc in lg.closure:
+            if rc in seen:
+                continue
+            seen.add(rc)
+            it = Interp(dict(Target=lambda **kw: Tgt('closure-target', **kw), FilterHelper='FilterHelper', PredNodes='PredNodes',
+                             AdzHelper='AdzHelper', NodeCount='NodeCount', float=float, min=min, max=max, len=len, bool=bool),
+                        where=f'{rc.short} scoring')
+
+            class Self(dict):
+                pass
+            self_ = Self()
+            adz = Obj('AdzHelper', closure_rules=[Obj('closure-rule', nodes_will_close_branch=lambda nodes, branch: False)])
+            adz.closure_score = lambda t: it.call(f_cs, [adz, t])
+            self_['AdzHelper'] = adz
+            self_['NodeCount'] = {'BRANCH': {}}
+            self_['FilterHelper'] = Obj('FilterHelper', config=Obj('cfg', pred=lambda n: True), release=lambda n, b: None)
+            self_['FilterHelper'].__class__ = type('FH', (Obj,), {'__call__': lambda s_, node, branch: True})
+            self_['PredNodes'] = Obj('PredNodes', release=lambda n, b: None)
+            self_.branching = 0
+            self_.tableau = Obj('tableau', branching_complexity=lambda node: 0)
+            self_.sentence = lambda node: ('a', 'a')
+            self_._find_closing_node = lambda node, branch: 'PARTNER'
+            self_.node_will_close_branch = lambda node, branch: True
+
+            def invoke(name, args, kw, after=None, rc=rc, it=it, self_=self_):
+                fn, owner = m.method(rc, name, after)
+                if not isinstance(fn, FuncRef):
+                    raise Raised(f'AttributeError {name}')
+                consulted.add(m.floc(fn) + f' {fn.qualname}')
+
+                class Sup:
+                    def __getattr__(s_, n):
+                        return lambda *a, **k: invoke(n, list(a), k, after=owner)
+                old = it.g.get('super')
+                it.g['super'] = lambda: Sup()
+                try:
+                    return it.call(fn.node, [self_, *args], kw)
+                finally:
+                    it.g['super'] = old
+            for nm in ('score_candidate', 'group_score', '_branch_target_hook'):
+                setattr(self_, nm, (lambda nm: (lambda *a, **k: invoke(nm, list(a), k)))(nm))
+            try:
+                target = self_._branch_target_hook('NODE', 'BRANCH')
+            except Exception as e:
+                target = None
+            if not isinstance(target, Tgt):
+                target = Tgt('closure-target', nodes=('NODE', 'PARTNER'), branch='BRANCH')
+            target['rule'] = self_
+            for nm in ('score_candidate', 'group_score'):
+                try:
+                    r = getattr(self_, nm)(target)
+                except Raised as e:
+                    r = Raises(e.text)
+                except (TypeError, KeyError, AttributeError, IndexError, ValueError, ZeroDivisionError) as e:
+                    r = Raises(f'{type(e).__name__}: {e}')
+                ok = isinstance(r, (int, float)) and not isinstance(r, bool)
+                fn, owner = m.method(rc, nm)
+                out.append((ok, f'{rc.short}.{nm}', f'resolves to {fn.qualname if isinstance(fn, FuncRef) else fn!r}; on the closure target '
+                            f'{sorted(k for k in target if k != "name")} it gives {r!r} (a number is required: the engine compares and sums scores)',
+                            m.floc(fn) if isinstance(fn, FuncRef) else '?'))
+    return out, sorted(consulted)
